@@ -71,8 +71,14 @@ package version
 // New: the two decimal fields are ParseUint of the SplitN parts (assumed stdlib contracts);
 // what is proved is the shape: a non-nil version is fresh and comes with a nil error, and
 // nothing that existed before is modified.
+// New is a function of its argument (strings.SplitN and strconv.ParseUint are pure); uf_isver /
+// uf_vmajor / uf_vminor name its results. The instance for "7.3" is validated on every run by
+// executing the real function (ground evaluation).
+//@ ground uf_isver("7.3") && uf_vmajor("7.3") == 7 && uf_vminor("7.3") == 3
 //@ func New
 //@   ensures (result0 != nil) <==> (result1 == nil)
+//@   assume-ensures (result1 == nil) <==> uf_isver(v)
+//@   assume-ensures result1 == nil ==> (result0.Major == uf_vmajor(v) && result0.Minor == uf_vminor(v))
 //@   ensures result0 != nil ==> fresh(result0)
 //@   modifies nothing
 //@   props C09
